@@ -89,12 +89,9 @@ def showPageOut (o : PageOut) : String :=
   let res := o.res.reverse.map fun p => s!"{kindIx p.1.1}.{p.1.2}.{p.2.1}:{showNats "+" p.2.2}"
   s!"ok/{if res.isEmpty then "-" else joinWith "," res}/{showNats "+" o.rest}"
 
-def runPages (f : Nat) (src : Src) : List PageM → St → List String × St
-  | [], st => ([], st)
-  | p :: ps, st =>
-    let r := clonePage f src p st
-    let rs := runPages f src ps r.2
-    ((match r.1 with | .ok o => showPageOut o | x => x.tag) :: rs.1, rs.2)
+def showPageRes : Out PageOut → String
+  | .ok o => showPageOut o
+  | x => x.tag
 
 def runOld (f : Nat) (src : Src) : List Edge → St → List String × St
   | [], st => ([], st)
@@ -120,8 +117,8 @@ def handle (args : List String) : String :=
   | "c20.page" :: fuel :: next :: nodes :: pages =>
     match natOf fuel, natOf next, parseNodes nodes, mapM? parsePage pages with
     | some f, some n, some ns, some ps =>
-      let r := runPages f (srcOf ns) ps (St.init n)
-      s!"{if r.1.isEmpty then "-" else joinWith " " r.1}|{showSt r.2}"
+      let r := clonePages f (srcOf ns) ps (St.init n)
+      s!"{if r.1.isEmpty then "-" else joinWith " " (r.1.map showPageRes)}|{showSt r.2}"
     | _, _, _, _ => "bad-request"
   | _ => "bad-request"
 
